@@ -23,6 +23,11 @@
                                (compute_framework.py:415-437 upload_finished_data)
    sent, replies, dropfail     ghosts: commands submitted (worker, step); result/error reports produced (step, ok);
                                the final drop raised and was swallowed
+   undelivered                 ghost: results that were collected but never handed to the consumer because it closed the stream
+                               in the middle of a drain: what is still in DataLifecycleManager.result_data_collection when
+                               GeneratorExit arrives (data_lifecycle_manager.py:148-157 pop_result_data_collection pops ONE item,
+                               yields it, pops the next ...).  `o` keeps Model/Orch.v's view (the whole drain moves results to
+                               yielded at the end of the scan); yielded minus undelivered = what the consumer received
 
    Transition                  source lines mirrored
    ------------------------------------------------------------------------------------------------------------------
@@ -53,8 +58,14 @@
                                already started and in `tasks`, its command queue is empty, nothing was submitted (before
                                d86b7a0 the feeder thread dropped the step silently and the run polled for ever).  The drop
                                command (a set of uuids, run.py:242) goes through command_queue.put directly and always pickles
-   OEndScan                    end of the for loop (+ run.py:185 yield from pop_result_data_collection, + sleep)
-   OResume / OAbandon          the consumer asks for the next item / closes the generator (GeneratorExit at the yield)
+   OEndScan                    end of the for loop (+ run.py:185 yield from pop_result_data_collection: the first item is popped
+                               (dict.popitem = the most recently collected = head of `results`) and yielded; PYield pending,
+                               pending = that item :: the items still in the collection)
+   ONext                       the consumer asks for the next item and there is one: popped and yielded (no loop head in between)
+   OResume                     the consumer asks for the next item after the last one of the drain: the generator goes on to
+                               the sleep and the loop head
+   OAbandon                    the consumer closes the generator: GeneratorExit at the yield, the item it holds was delivered,
+                               the rest of the drain (tl pending) never is -> undelivered
    OArtifacts ok               run.py:135 / 193 set_artifacts(cfw_register.get_artifacts()) - a manager call that precedes
                                self.join() in the finally block; ok = false: crash point CArtifacts (join is never reached)
    OTerminate w, OJoin w       worker_manager.py:93-108 join_all: for task in tasks: terminate() (processes only); join()
@@ -77,7 +88,7 @@
    Not modelled: a mixed mode set (a run is THREADING or MULTIPROCESSING), the SYNC back end (Orch.v inline = true), the
    deferred drops of DataLifecycleManager (in MP the parent's cfw.data is never an object id, so they do not touch the
    store; the store is emptied by ODropAll), exceptions raised by terminate()/join() themselves, the `len(to_finish_ids)
-   == 0: break` of compute_stream on an empty plan (as in Orch.v), a partially consumed drain before OAbandon. *)
+   == 0: break` of compute_stream on an empty plan (as in Orch.v; no request reaches the runtime with an empty plan). *)
 From Coq Require Import List Bool Arith.
 Import ListNotations.
 Require Import MV.Model.Orch.
@@ -99,7 +110,7 @@ Definition spawned (ph : wphase) : bool := match ph with WNone => false | _ => t
 Inductive exitk := XNormal | XRaisedHead | XRaisedBody | XAbandon | XFinallyCrash.
 
 Inductive opc :=
-  | PHead | PVisit (i : nat) | PPolled (i : nat) | PWait (i w : nat) | PYield
+  | PHead | PVisit (i : nat) | PPolled (i : nat) | PWait (i w : nat) | PYield (pending : list nat)
   | PFinally (x : exitk) | PTerm (x : exitk) (k : nat) | PJoin (x : exitk) (k : nat) | PDrop (x : exitk) | PExited (x : exitk).
 
 Record cfg := {
@@ -114,13 +125,14 @@ Record cfg := {
 
 Record pst := {
   o : ost; pc : opc; sc : option nat; ws : nat -> wst; tasks : list nat; flight : list nat;
-  sent : list (nat * nat); replies : list (nat * bool); dropfail : bool
+  sent : list (nat * nat); replies : list (nat * bool); dropfail : bool; undelivered : list nat
 }.
 
 Definition upd (f : nat -> wst) (w : nat) (x : wst) : nat -> wst := fun k => if Nat.eqb k w then x else f k.
 
 Definition pinit : pst :=
-  {| o := init; pc := PHead; sc := None; ws := fun _ => w0; tasks := []; flight := []; sent := []; replies := []; dropfail := false |}.
+  {| o := init; pc := PHead; sc := None; ws := fun _ => w0; tasks := []; flight := []; sent := []; replies := []; dropfail := false;
+     undelivered := [] |}.
 
 (* ---- record updates ---- *)
 Definition set_phase (x : wst) (ph : wphase) : wst :=
@@ -146,17 +158,20 @@ Definition add_failed (s : nat) (a : ost) : ost :=
 
 Definition mk (st : pst) (a : ost) (q : opc) (i : option nat) (f : nat -> wst) : pst :=
   {| o := a; pc := q; sc := i; ws := f; tasks := tasks st; flight := flight st; sent := sent st; replies := replies st;
-     dropfail := dropfail st |}.
+     dropfail := dropfail st; undelivered := undelivered st |}.
 Definition set_pc (st : pst) (q : opc) : pst := mk st (o st) q (sc st) (ws st).
 Definition set_tasks (st : pst) (t : list nat) (sn : list (nat * nat)) : pst :=
   {| o := o st; pc := pc st; sc := sc st; ws := ws st; tasks := t; flight := flight st; sent := sn; replies := replies st;
-     dropfail := dropfail st |}.
+     dropfail := dropfail st; undelivered := undelivered st |}.
 Definition set_flight (st : pst) (fl : list nat) (df : bool) : pst :=
   {| o := o st; pc := pc st; sc := sc st; ws := ws st; tasks := tasks st; flight := fl; sent := sent st; replies := replies st;
-     dropfail := df |}.
+     dropfail := df; undelivered := undelivered st |}.
 Definition add_reply (st : pst) (r : nat * bool) : pst :=
   {| o := o st; pc := pc st; sc := sc st; ws := ws st; tasks := tasks st; flight := flight st; sent := sent st;
-     replies := r :: replies st; dropfail := dropfail st |}.
+     replies := r :: replies st; dropfail := dropfail st; undelivered := undelivered st |}.
+Definition set_undelivered (st : pst) (u : list nat) : pst :=
+  {| o := o st; pc := pc st; sc := sc st; ws := ws st; tasks := tasks st; flight := flight st; sent := sent st;
+     replies := replies st; dropfail := dropfail st; undelivered := u |}.
 
 (* ---- the orchestrator's tests ---- *)
 Definition nofail : nat -> bool := fun _ => false.
@@ -229,7 +244,7 @@ Inductive label :=
   | OArtifacts (ok : bool) | OTerminate (w : nat) | OJoin (w : nat) | OClose | ODropAll (ok : bool)
   | WTake (w : nat) | WUpload (w : nat) | WDone (w : nat) | WFail (w : nat) (c : crashpt)
   | WDropAck (w : nat) (last dropped : bool) | WDropCrash (w : nat)
-  | OSendFail.
+  | OSendFail | ONext.
 
 Definition is_worker_label (l : label) : bool :=
   match l with WTake _ | WUpload _ | WDone _ | WFail _ _ | WDropAck _ _ _ | WDropCrash _ => true | _ => false end.
@@ -367,14 +382,14 @@ Section Step.
         | None =>
           let a1 := bump a in
           if cstream c then
-            Some (mk st (drain a1) (match results a1 with [] => PHead | _ :: _ => PYield end) None (ws st))
+            Some (mk st (drain a1) (match results a1 with [] => PHead | _ :: _ => PYield (results a1) end) None (ws st))
           else Some (mk st a1 PHead None (ws st))
         | Some _ => None
         end
       | _ => None
       end
-    | OResume => match pc st with PYield => Some (set_pc st PHead) | _ => None end
-    | OAbandon => match pc st with PYield => Some (set_pc st (PFinally XAbandon)) | _ => None end
+    | OResume => match pc st with PYield [_] => Some (set_pc st PHead) | _ => None end
+    | OAbandon => match pc st with PYield (_ :: t) => Some (set_undelivered (set_pc st (PFinally XAbandon)) t) | _ => None end
     (* ------------------------------------------------ main thread: finally ------------------------------------------------ *)
     | OArtifacts ok =>
       match pc st with
@@ -493,6 +508,8 @@ Section Step.
         end
       | _ => None
       end
+    (* ------------------------------------- main thread: the next item of the drain ------------------------------------- *)
+    | ONext => match pc st with PYield (_ :: (x :: t)) => Some (set_pc st (PYield (x :: t))) | _ => None end
     end.
 
   Fixpoint exec (st : pst) (tr : list label) : option pst :=
@@ -592,7 +609,8 @@ Fixpoint assoc {A} (d : A) (l : list (nat * A)) (k : nat) : A :=
 Record pcase := {
   pc_plan : plan; pc_mp : bool; pc_stream : bool;
   pc_wof : list (nat * nat); pc_wdrop : list (nat * nat); pc_children : list (nat * list nat); pc_wfail : list (nat * option crashpt);
-  pc_hist : list label; pc_exit : exitk; pc_keys_left : bool
+  pc_hist : list label; pc_exit : exitk; pc_keys_left : bool;
+  pc_received : nat                   (* items the consumer of compute_stream received (0 for compute) *)
 }.
 
 Definition cfg_of (k : pcase) : cfg :=
@@ -607,9 +625,16 @@ Definition chk_proto (k : pcase) : bool :=
   match exec (cfg_of k) pinit (pc_hist k) with
   | Some st => match pc st with
                | PExited x => exitk_eqb x (pc_exit k) && Bool.eqb (match flight st with [] => false | _ => true end) (pc_keys_left k)
+                              && Nat.eqb (List.length (yielded (o st)) - List.length (undelivered st)) (pc_received k)
                | _ => false
                end
   | None => false
   end.
 
 Definition diag_proto (k : pcase) : option nat := first_bad (cfg_of k) pinit (pc_hist k) 0.
+(* diagnostics / counters: what the model says the consumer received, and what it lost by closing the stream mid-drain *)
+Definition received_proto (k : pcase) : option (nat * nat) :=
+  match exec (cfg_of k) pinit (pc_hist k) with
+  | Some st => Some (List.length (yielded (o st)) - List.length (undelivered st), List.length (undelivered st))
+  | None => None
+  end.
